@@ -492,6 +492,44 @@ def run(ctx):
                         g['maj'], g['min'], g['line'], printable(g['line']), '' if flag else 'not '), replay)
         nontriv.add(('report', g['maj'] == '1', printable(g['line']), g['cls']))
     hist['report'] = n_rep
+    # ---- header text end to end: lines before the identification string are reported once, whatever number of follow-up connections
+    # (host-key probes, group-exchange probes) the audit makes to the same peer, each of which sends the same lines again
+    import peers as P, runner
+    hdr_cases = []
+    for i, pre in enumerate([[b'Welcome to host'], [b'line one  ', b'', b'   ', b'line two'], [b'NOTICE: authorised use only', b'SSH-is-not-a-banner', b'x'], []]):
+        for kexs, keys in ((['curve25519-sha256'], ['ssh-ed25519', 'rsa-sha2-512']), (['diffie-hellman-group-exchange-sha256', 'curve25519-sha256'], ['ssh-ed25519']), (['x-unknown-kex'], ['x-unknown-key'])):
+            hdr_cases.append({'pre': pre, 'kex': kexs, 'key': keys})
+    if q:
+        hdr_cases = hdr_cases[::2] + hdr_cases[1:2]
+
+    def do_hdr(z, c):
+        spec = dict(banner=b'SSH-2.0-OpenSSH_8.9', pre=c['pre'], kex=c['kex'], key=c['key'], enc=['aes256-ctr'], mac=['hmac-sha2-256'],
+                    hostkeys={b'ssh-ed25519': P.ed25519_blob(), b'rsa-sha2-512': P.rsa_blob(3072)}, gex=lambda a, b, cc: max(a, min(cc, 3072)))
+        srv = P.new_ssh2_server(spec, stall_limit=3.0)
+        try:
+            r = z.run(['-n', '--skip-rate-test', '-t', '2', '127.0.0.1:%d' % srv.port], timeout=90)
+            r['conns'] = srv.conns()
+            return r
+        finally:
+            srv.shutdown()
+    with runner.Pool(8) as pool:
+        hres = pool.map(do_hdr, hdr_cases)
+    for c, r in zip(hdr_cases, hres):
+        want = [l.rstrip().decode() for l in c['pre'] if l.strip()]
+        out = r['out']
+        replay = {'op': 'cli-header', 'pre': [l.decode() for l in c['pre']], 'kex': c['kex'], 'key': c['key'], 'connections': r['conns']}
+        if '(gen) banner: SSH-2.0-OpenSSH_8.9' not in out:
+            ctx.violation('report/header/no-banner', 'no banner line in the report of a peer sending %d lines before its identification string: %s' % (len(c['pre']), (out + r['err'])[-200:]), replay)
+            continue
+        got = []
+        if '(gen) header: ' in out:
+            blk = out.split('(gen) header: ', 1)[1].split('\n(gen) banner: ', 1)[0]
+            got = blk.split('\n')
+        nontriv.add(('cli-header', len(want), r['conns'] > 1))
+        if got != want:
+            ctx.violation('report/header-text', 'the report shows %d header line(s) %r for a peer that sends %r before its identification string (the audit made %d connections)' % (len(got), got[:8], want, r['conns']), replay)
+    hist['cli-header'] = len(hdr_cases)
+    ctx.evaluations += len(hdr_cases)
     ctx.evaluations += 2 * n_rep
     samples.append({'op': 'get_banner', 'chunks': ['hello\\r\\nSSH-2.0-Open', 'SSH_8.9p1\\r\\n'], 'note': 'split line is reassembled since ddbb5b8', 'impl': repr(obs(impl_get_banner([b'hello\r\nSSH-2.0-Open', b'SSH_8.9p1\r\n'], 'close')[0]))})
     ctx.extra['op_histogram'] = hist
